@@ -3,7 +3,7 @@ renders every component."""
 from __future__ import annotations
 
 from ..fold import CannotFold, Folder
-from ..interp import analyze
+from ..interp import analyze, truth
 from ..model import AnalysisError
 from ..report import Ctx, where
 from ..terms import show, walk
@@ -65,6 +65,18 @@ def human_rules(ctx: Ctx):
     ctx.ob(rule, hq.qual, "'%' + unsafe, rendered %XX", pct_first and upper,
            f"human_quote must escape '%' before the position delimiters and render escapes as upper-case %XX (percent first: {pct_first}, %02X: {upper})",
            where(hq, hq.node), sample="for c in '%' + unsafe: replace(c, f'%{ord(c):02X}')")
+    # the escape loop dominates every return of non-empty text: what is returned is built from the text *after* the
+    # replacement of '%' + unsafe, on every path (a second escaping pass with other rules must not replace it)
+    sparam = ("param", hq.params[0])
+    for st, v, node in rq.returns:
+        if truth(sparam, st.facts) is False and v == sparam:
+            continue
+        ctx.instance(rule)
+        uses_raw = any(t == sparam for t in walk(v))
+        uses_replaced = any(t[0] == "phi" and t[2] == hq.params[0] for t in walk(v))
+        ctx.ob(rule, hq.qual, f"return {show(v)[:60]}", uses_replaced and not uses_raw,
+               "a return path of human_quote is built from the text before '%' and the position delimiters were replaced: "
+               "delimiters survive on that path", where(hq, node), sample="built from the text after the replacement loop")
     # F5: every component is rendered, the explicit port is used
     rule5 = "F5"
     ctx.rule(rule5, floor=1, what="human_repr renders every component once and uses the explicit port")
